@@ -13,7 +13,7 @@ import sqlite3
 from typing import Any, List, Optional
 
 from vf.core import Job
-from vf.xh import Violation, realize, reject_unless
+from vf.xh import Violation, concrete, realize, reject_unless
 
 PROPERTY_ID = "C15"
 FUNCTIONS = ["ak.mtd_sql.SqlFilterCondition.make", "ak.mtd_sql.SqlFieldValCondition.__init__", "ak.mtd_sql.SqlFieldValCondition.make_text_update_values",
@@ -721,6 +721,69 @@ def h_evaluator_vs_sqlite(i0: int, i1: int, s0: str, a0: int, b0: str, nulls: in
         raise HarnessError(f"STUB-MISMATCH: mini evaluator gives {got!r}, sqlite3 gives {real!r} for {conn.calls[0]}")
 
 
+BLOBS = [b"ab", b"", b"a"]
+BLOB_CELLS = [b"ab", b"", b"a", "ab", "", None]
+
+
+def _blob_case(form, v, cells, real_db=None) -> Optional[str]:
+    from ak.mtd_sql import SqlMethod
+    rows = [(k + 1, k + 1, c) for k, c in enumerate(cells)]
+    neg = form in (1, 5)
+    args, kw = {0: ([("b", "=", v)], {}), 1: ([("b", "!=", v)], {}), 2: ([("b", v)], {}), 3: ([], {"b": v}),
+                4: ([SqlMethod._or(("b", "=", v), ("a", "=", 77))], {}), 5: ([SqlMethod._or(("b", "!=", v), ("a", "=", 77))], {})}[form]
+    what = f"filter {args!r} {kw!r} over {rows!r}"
+    m = SqlMethod("SELECT id, a, b FROM t", order_by="id")
+    exp = [r for r in rows if r[2] is not None and ((type(r[2]) is bytes and r[2] == v) != neg)]
+    if real_db is not None:
+        real_db.execute("DELETE FROM t")
+        real_db.executemany("INSERT INTO t VALUES (?, ?, ?)", rows)
+        try:
+            got = [tuple(x) for x in m.list(real_db, *args, **kw)]
+        except Exception as e:  # noqa
+            return f"blob-raises :: {what} raises {type(e).__name__}: {e}"
+        return None if got == exp else f"blob-wrong-rows :: {what} on sqlite3 returned {got!r}, intended {exp!r}"
+    conn = StubConn(rows)
+    try:
+        got = [tuple(x) for x in m.list(conn, *args, **kw)]
+    except SqlEvalError as e:
+        return f"blob-bad-sql :: {what}: {e}"
+    sql, params = conn.calls[0]
+    blob_params = [p for p in params if isinstance(p, (bytes, bytearray))]
+    if len(blob_params) != 1 or bytes(blob_params[0]) != v or sql.count("?") != len(params) or len(params) != (2 if form >= 4 else 1):
+        return f"blob-not-bound-as-one-value :: {what}: statement {sql!r} with parameters {params!r}"
+    if got != exp:
+        return f"blob-wrong-rows :: {what}: {sql!r} with {params!r} returned {got!r}, intended {exp!r}"
+    return None
+
+
+def h_blob(form: int, vi: int) -> None:
+    """a bytes operand (comparison against a BLOB column) is ONE value: bound to one placeholder as it is, and the rows returned are
+    those whose cell equals / differs from it (a BLOB never equals a TEXT; NULL cells match neither '=' nor '!=').  Condition form
+    (3-item '=' / '!=', 2-item, keyword, inside an OR group) and operand are choice variables; all 216 cell triples swept"""
+    import itertools
+    reject_unless(0 <= form < 6 and 0 <= vi < len(BLOBS))
+    form, vi = realize(form), realize(vi)
+    with concrete():
+        for cells in itertools.product(BLOB_CELLS, repeat=3):
+            err = _blob_case(form, BLOBS[vi], cells)
+            if err:
+                raise Violation(err)
+
+
+def replay_h_blob(record) -> Optional[str]:
+    """replay on real in-memory sqlite3"""
+    import itertools
+    from vf.core import decode_args
+    a = decode_args(record["args"])
+    db = sqlite3.connect(":memory:")
+    db.execute("CREATE TABLE t (id, a, b)")
+    for cells in itertools.product(BLOB_CELLS, repeat=3):
+        err = _blob_case(a["form"], BLOBS[a["vi"]], cells, real_db=db)
+        if err:
+            return err
+    return None
+
+
 def h_one(a0: int, a1: int, an0: bool, an1: bool, v: int, shard=None) -> None:
     """one / one_or_none / all / _as_scalars / _order_by on top of the same filter machinery"""
     from ak.mtd_sql import SqlMethod
@@ -773,5 +836,6 @@ def jobs(tier: str) -> List[Job]:
     for k in range(len(SHAPES)):
         if "b" in _cols_used(SHAPES[k]):
             js.append(Job(__name__, "h_filter_special", shard={"shape": k, "rows": 3}, budget_s=300 if t else 40, label=f"filter-special-strings:shape{k}", must_exhaust=True))
+    js.append(Job(__name__, "h_blob", budget_s=120, label="blob-operands", must_exhaust=True))
     js.append(Job(__name__, "h_one", shard={}, budget_s=120, label="one/one_or_none/all", must_exhaust=True))
     return js
